@@ -459,6 +459,7 @@ func bxvRun(c bxvCase) (res bool, err error, pan string, created bool) {
 	if cerr != nil {
 		return false, cerr, "", false
 	}
+	created = true
 	defer func() {
 		if r := recover(); r != nil {
 			pan = fmt.Sprint(r)
